@@ -21,7 +21,7 @@ RULE = (
     "growth-grammar network. Non-trivial = the history contains an explicit-engine step while an engine of a "
     "different kind (or a different instance) is selected. Distinct = SHA-1 of the case."
 )
-BUDGET = {"quick": {"examples": 150, "shards": 4}, "thorough": {"fuzz_runs": 3000, "examples": 2000, "shards": 16}}
+BUDGET = {"quick": {"examples": 300, "shards": 4}, "thorough": {"fuzz_runs": 3000, "examples": 2000, "shards": 16}}
 EXPECTED_LABELS = ("use:other-thread", "step_fail", "el:init", "el:step", "el:init+step", "el:default", "el:explicit", "use:name", "use:bad-name", "use:spy", "use:real", "use:same-class-instance", "step:default", "step:explicit",
                    "explicit-differs-from-selected", "pair:numpy/SX", "pair:SX/numpy", "pair:MX/numpy", "pair:numpy/MX", "pair:SX/MX",
                    "interior-ramp", "delta", "merge", "bifurcation", "dest:cong", "origin:main")
